@@ -25,6 +25,8 @@ STRT = "TYPE\n  STR10 : STRING[10];\nEND_TYPE\n"
 SINIT = "TYPE\n  PT2 : PT := (x := 1);\nEND_TYPE\n"
 LATEB = "TYPE\n  LVL3 : LVL;\nEND_TYPE\n"
 SUBR_AS_LVL = "TYPE\n  LVL : INT (1..10);\nEND_TYPE\n"
+STRUCT_AS_FN = "TYPE\n  FN : STRUCT\n    q : INT;\n  END_STRUCT;\nEND_TYPE\n"
+ENUM_AS_MAIN = "TYPE\n  MAIN : (M_A, M_B) := M_A;\nEND_TYPE\n"
 STR_AS_ARR = "TYPE\n  ARR : STRING[10];\nEND_TYPE\n"
 FB_AS_LVL = "FUNCTION_BLOCK LVL\n  VAR\n    x : INT;\n  END_VAR\n  x := 1;\nEND_FUNCTION_BLOCK\n"
 
@@ -43,6 +45,8 @@ KINDS = {
     "RX": ("LVL", [], SUBR_AS_LVL),
     "CX": ("LVL", [], FB_AS_LVL),
     "ASX": ("ARR", [], STR_AS_ARR),
+    "TFN": ("FN", [], STRUCT_AS_FN),
+    "TMAIN": ("MAIN", [], ENUM_AS_MAIN),
     "E": ("LVL", [], ENUM),
     "E2": ("LVL2", ["LVL"], ALIAS),
     "S": ("PT", ["LVL"], STRUCT),
@@ -86,6 +90,12 @@ DUP_BODY = {
     "M": MAIN.replace("n := n + 1;", "n := n + 2;"),
     "F": FUNC.replace("fa + 1", "fa + 2"),
 }
+
+
+# the specification's name of a declaration where it differs from the spelled name: a data type that is spelled like a
+# function / program lives in another name space
+SPEC_NAME = {}
+SPACE = {"C": "fb", "U": "fb", "V": "fb", "W": "fb", "CX": "fb", "F": "pou", "M": "pou", "MF": "pou", "G": "pou"}     # everything else: "data"
 
 
 def lex_fault(text):
@@ -135,6 +145,10 @@ def scenarios():
     sc["validLB"] = [("E", "none"), ("LB", "none"), ("C", "none")]
     sc["validT5"] = [("E", "none"), ("LB", "none"), ("S", "none"), ("SI", "none"), ("C", "none")]
     sc["validT8"] = [("E", "none"), ("E2", "none"), ("LB", "none"), ("S", "none"), ("SI", "none"), ("R", "none"), ("AR", "none"), ("ST", "none")]
+    # a VALID data type that has the name of a FAULTY function / program: the fault must still be found
+    # (functions and programs are not types: the coincidence of the names is legal and is not a duplicate)
+    sc["rule_TF"] = [("E", "none"), ("C", "none"), ("TFN", "none"), ("F", "rule")]
+    sc["rule_TM"] = [("E", "none"), ("E2", "none"), ("C", "none"), ("U", "none"), ("TMAIN", "none"), ("M", "rule")]
     sc["cross_RX"] = [(x, "none") for x in ["E", "C", "RX"]]
     sc["cross_CX"] = [(x, "none") for x in ["E", "C", "CX"]]
     sc["rule_R"] = [("E", "none"), ("C", "none"), ("R", "rule")]
@@ -167,18 +181,29 @@ def write_specs():
         mod = "MC_Pipe_" + name
         lines = ["---- MODULE %s ----" % mod, "EXTENDS Pipeline",
                  "\\* generated by drivers/pipescen.py - scenario %s" % name,
-                 "ScName == " + "<<" + ", ".join('"%s"' % KINDS[k][0] for k, f in decls) + ">>",
+                 "ScName == " + "<<" + ", ".join('"%s"' % SPEC_NAME.get(k, KINDS[k][0]) for k, f in decls) + ">>",
                  "ScDeps == " + "<<" + ", ".join("{" + ", ".join('"%s"' % d for d in KINDS[k][1]) + "}" for k, f in decls) + ">>",
                  "ScFault == " + "<<" + ", ".join('"%s"' % tla_fault(f) for k, f in decls) + ">>",
+                 "ScSortDeps == " + "<<" + ", ".join("{" + ", ".join('"%s"' % d for d in (KINDS[k][1] if k in ("E2", "LB") else [])) + "}" for k, f in decls) + ">>",
+                 "ScSpace == " + "<<" + ", ".join('"%s"' % SPACE.get(k, "data") for k, f in decls) + ">>",
                  "===="]
         with open(os.path.join(SPEC, mod + ".tla"), "w") as fh:
             fh.write("\n".join(lines) + "\n")
         big = n > 5
-        cfg = ["SPECIFICATION Spec", "CONSTANTS", "  N = %d" % n, "  Name <- ScName", "  Deps <- ScDeps", "  Fault <- ScFault",
+        cfg = ["SPECIFICATION Spec", "CONSTANTS", "  N = %d" % n, "  Name <- ScName", "  Deps <- ScDeps", "  Fault <- ScFault", "  Space <- ScSpace", "  SortDeps <- ScSortDeps",
                "  MaxFiles = %d" % (1 if big else 3), "  Arrange = \"%s\"" % ("identity" if big else "all"), "  Deviations = {}", "  Emit = TRUE",
                "INVARIANTS TypeOK NoMasking OrderIndependent NothingLostBySort EmitReplay", "CHECK_DEADLOCK FALSE"]
         with open(os.path.join(SPEC, mod + ".cfg"), "w") as fh:
             fh.write("\n".join(cfg) + "\n")
+        # trace validation of recorded analyses of this scenario (PipelineTrace.tla)
+        tmod = "PT_" + name
+        with open(os.path.join(SPEC, tmod + ".tla"), "w") as fh:
+            fh.write("\n".join(["---- MODULE %s ----" % tmod, "EXTENDS PipelineTrace", "\\* generated by drivers/pipescen.py - scenario %s" % name] + lines[3:]) + "\n")
+        tcfg = ["SPECIFICATION TSpec", "CONSTANTS", "  N = %d" % n, "  Name <- ScName", "  Deps <- ScDeps", "  Fault <- ScFault", "  Space <- ScSpace", "  SortDeps <- ScSortDeps",
+                "  MaxFiles = 1", "  Arrange = \"identity\"", "  Deviations = {}", "  Emit = FALSE", "  NRules = 11",
+                "INVARIANTS TraceInv Verdict", "CHECK_DEADLOCK FALSE"]
+        with open(os.path.join(SPEC, tmod + ".cfg"), "w") as fh:
+            fh.write("\n".join(tcfg) + "\n")
         names.append(name)
     # deviation configurations: the named deviations must be caught by the properties (spec-level self test)
     for dev, scen in (("CollapseEqualNames", "dup_Ux"), ("DropParseDiagsWhenAnalysisOk", "lex_M")):
